@@ -395,7 +395,7 @@ func TestVerifC04_Import(t *testing.T) {
 		orig := vr2CopyBytes(data)
 		c := vkit.NewCase().Key("import", target.hashKey(), payload.hashKey(), format, clear, rowSize)
 		defer c.Done()
-		c.Class("format:" + format).Class("clear:%v", clear).Class("targetEnc:" + target.Enc)
+		c.Class("format:"+format).Class("clear:%v", clear).Class("targetEnc:" + target.Enc)
 		tt := vTypesAt(tb)
 		for _, pc := range payload.Conts {
 			if len(pc.Vals) == 0 {
